@@ -1,1 +1,112 @@
-/-! C11 — property theorems (placeholder until the model exists). -/
+import EupsModel.Lemmas.CondCorrect
+import EupsModel.Lemmas.CondLex
+import EupsModel.Model.CondPinned
+/-! C11 — table files mean what they say.  Property theorems only: the specification side is in
+`Spec/C11.lean`, the models in `Model/{Cond,CondPinned,TableParse}.lean`, the lemmas in `Lemmas/Cond*.lean`. -/
+namespace EupsModel.C11
+open EupsModel.Cond EupsModel.C11Spec
+
+/-! ## conditions -/
+
+/-- **C11_cond.**  Every condition over `FLAVOR` and `TYPE` built from `==`, `!=`, `&&`, `||` and parentheses,
+written with any spelling of the keywords, any quoting of the words, redundant parentheses and blanks anywhere
+between tokens (`c : CExpr`, well-formed at the top level), evaluates — text in, truth value out, through the
+tokeniser, the symbol lookup and the recursive descent of `VersionParser` — to the value its truth table gives
+(`denote`), for every flavor that is not itself one of the evaluator's four special tokens and every list of
+setup types, with the fuel the driver uses (or more). -/
+theorem C11_cond (env : Env) (hfl : flavorOK env.flavor = true) (c : CExpr) (hok : c.okAt 0 = true)
+    (trail : Str) (ht : blank trail = true) (f : Nat) (hf : fuelFor (c.str ++ trail) ≤ f) :
+    evalCond env f (c.str ++ trail) = .ok (denote env c.abs) := by
+  have hl := toks_length_le c 0 hok
+  simp only [evalCond, tokenize_expr c hok trail ht]
+  apply evalToks_correct hfl c hok
+  simp only [fuelFor, List.length_append] at hf
+  omega
+
+theorem render_abs (e : BExpr) : ∀ p, (render p e).abs = e := by
+  induction e with
+  | atom v neg w => intro p; rfl
+  | and a b iha ihb =>
+    intro p; simp only [render]; split <;> simp [CExpr.abs, iha, ihb]
+  | or a b iha ihb =>
+    intro p; simp only [render]; split <;> simp [CExpr.abs, iha, ihb]
+
+theorem render_ok (e : BExpr) : e.wordsOK = true → ∀ p, (render p e).okAt p = true := by
+  induction e with
+  | atom v neg w =>
+    intro hw p
+    simp only [BExpr.wordsOK] at hw
+    cases v <;> simp [render, CExpr.okAt, Atom.ok, hw, Var.kw, blank, Str.isSpace] <;> decide
+  | and a b iha ihb =>
+    intro hw p
+    simp only [BExpr.wordsOK, Bool.and_eq_true] at hw
+    simp only [render]
+    split
+    · simp [CExpr.okAt, iha hw.1 1, ihb hw.2 2, blank, Str.isSpace]
+    · rename_i hp; simp [CExpr.okAt, iha hw.1 1, ihb hw.2 2, blank, Str.isSpace]; omega
+  | or a b iha ihb =>
+    intro hw p
+    simp only [BExpr.wordsOK, Bool.and_eq_true] at hw
+    simp only [render]
+    split
+    · simp [CExpr.okAt, iha hw.1 0, ihb hw.2 1, blank, Str.isSpace]
+    · rename_i hp; simp [CExpr.okAt, iha hw.1 0, ihb hw.2 1, blank, Str.isSpace]; omega
+
+/-- the same for the canonical text of an expression: `eval (tokenize (render e)) env = denote e env` -/
+theorem C11_cond_render (env : Env) (hfl : flavorOK env.flavor = true) (e : BExpr) (hw : e.wordsOK = true) :
+    evalCond env (fuelFor (render 0 e).str) (render 0 e).str = .ok (denote env e) := by
+  have := C11_cond env hfl (render 0 e) (render_ok e hw 0) [] rfl (fuelFor (render 0 e).str) (by simp)
+  simpa [render_abs] using this
+
+/-! ### non-vacuity -/
+
+/-- `( TYPE == build || flavor != 'Linux64' )&&Flavor=="Darwin"` is a well-formed written condition -/
+def sampleCond : CExpr :=
+  .and (.paren (.or (.atom ⟨Str.ofString "TYPE", .type, false, Str.ofString "build", none, [32], [32], [32]⟩)
+                    (.atom ⟨Str.ofString "flavor", .flavor, true, Str.ofString "Linux64", some 39, [32], [32], [32]⟩) [32]) [] [32])
+       (.atom ⟨Str.ofString "Flavor", .flavor, false, Str.ofString "Darwin", some 34, [], [], []⟩) []
+
+example : sampleCond.okAt 0 = true := by decide
+example : sampleCond.str = Str.ofString "( TYPE == build || flavor != 'Linux64' )&&Flavor==\"Darwin\"" := by decide
+example : flavorOK (Str.ofString "Darwin") = true := by decide
+example : evalCond ⟨Str.ofString "Darwin", []⟩ (fuelFor sampleCond.str) sampleCond.str = .ok true := by decide +kernel
+example : evalCond ⟨Str.ofString "Linux64", []⟩ (fuelFor sampleCond.str) sampleCond.str = .ok false := by decide +kernel
+
+/-! ### the evaluator as pinned (before the repair of D3) -/
+
+/-- `A && B || C` with `A` false and `C` true -/
+def d3Expr : BExpr :=
+  .or (.and (.atom .flavor false (Str.ofString "Darwin")) (.atom .type false (Str.ofString "build")))
+      (.atom .flavor false (Str.ofString "Linux"))
+def d3Env : Env := ⟨Str.ofString "Linux", [Str.ofString "build"]⟩
+
+/-- **C11_cond is false of the pinned evaluator (1).**  `FLAVOR == Darwin && TYPE == build || FLAVOR == Linux`
+for flavor Linux: the truth table says true; the pinned `_expr` does not consume `TYPE == build` after the false
+`FLAVOR == Darwin`, reads `TYPE` as an operator, stops, and returns false. -/
+theorem C11_shortcircuit_witness_1 :
+    (render 0 d3Expr).str = Str.ofString " FLAVOR == Darwin && TYPE == build || FLAVOR == Linux" ∧
+    d3Expr.wordsOK = true ∧ flavorOK d3Env.flavor = true ∧ denote d3Env d3Expr = true ∧
+    CondPinned.evalCond d3Env (fuelFor (render 0 d3Expr).str) (render 0 d3Expr).str = .ok false := by decide +kernel
+
+/-- the same expression with its redundant parentheses written out -/
+def d3Paren : CExpr :=
+  .or (.paren (.and (.atom ⟨Str.ofString "FLAVOR", .flavor, false, Str.ofString "Darwin", none, [], [32], [32]⟩)
+                    (.atom ⟨Str.ofString "TYPE", .type, false, Str.ofString "build", none, [32], [32], [32]⟩) [32]) [] [])
+      (.atom ⟨Str.ofString "FLAVOR", .flavor, false, Str.ofString "Linux", none, [32], [32], [32]⟩) [32]
+
+/-- **C11_cond is false of the pinned evaluator (2).**  `(FLAVOR == Darwin && TYPE == build) || FLAVOR == Linux`:
+inside the parentheses the same tokens are left over; `_prim` finds `TYPE` where it expects `)` and raises
+`RuntimeError` when no setup type is given, and when one is given the list bound to `TYPE` has been pushed back
+onto the token stream and `_lookup` fails on it with `AttributeError`. -/
+theorem C11_shortcircuit_witness_2 :
+    d3Paren.str = Str.ofString "(FLAVOR == Darwin && TYPE == build) || FLAVOR == Linux" ∧
+    d3Paren.okAt 0 = true ∧ denote d3Env d3Paren.abs = true ∧ denote { d3Env with types := [] } d3Paren.abs = true ∧
+    CondPinned.evalCond d3Env (fuelFor d3Paren.str) d3Paren.str = .err .attribute ∧
+    CondPinned.evalCond { d3Env with types := [] } (fuelFor d3Paren.str) d3Paren.str = .err .runtime := by
+  decide +kernel
+
+/-- the repaired evaluator on the two witnesses -/
+example : evalCond d3Env (fuelFor (render 0 d3Expr).str) (render 0 d3Expr).str = .ok true := by decide +kernel
+example : evalCond d3Env (fuelFor d3Paren.str) d3Paren.str = .ok true := by decide +kernel
+
+end EupsModel.C11
